@@ -427,8 +427,6 @@ PROPS["C05"] = dict(
               "pool of 3 so that they repeat, DUP or not), PUBREL (pending, unknown, already completed) and handshake timeouts (sweep of the "
               "in-flight table). Every write-producing step carries a fault plan: a subset of nodes whose write fails, as 'peer unreachable', "
               "'remote log refuses' or (local node) 'local log refuses'. A fixed part enumerates all 8 failure subsets x modes on 3 destinations. "
-              "Fault mode 'panic' (runs panic, panicrandom): the failing write panics instead of returning an error; the case runs in a child process, "
-              "which either dies (nothing acknowledged) or survives and is judged by the same oracle. "
               "Oracle (recording log wrappers on every node + packets read by the client): a payload is stored exactly once on every destination "
               "whose write was not failed and nowhere else; PUBACK/PUBCOMP exactly once iff no destination write failed; a QoS 2 payload is stored "
               "nowhere before its PUBREL, once after it, never for a PUBREL without pending handshake, never after the PUBREC expired, never twice."),
@@ -648,3 +646,19 @@ PROPS["C20"] = dict(
         dict(name="writer", pkg="c03", run="TestRandom", checks=dict(quick=320, thorough=3000), shards=16, timeout=dict(quick=400, thorough=2400), shrinktime="60s"),
     ],
 )
+
+# Later additions to the checks (rounds 7 and 8), appended to the manifest text of the property
+ADDITIONS = {
+    "C02": "Run suback: a publish from another connection sent, and acknowledged, at the very moment the subscriber has received its SUBACK (hook on the fake connection) must reach that subscriber (1-3 filters, 0-60 retained messages replayed in between, QoS 1/2).",
+    "C04": "Run overlap: 1728 enumerated scenarios of a second sweep that overlaps the callbacks of a running one (from another goroutine or from inside a callback) with an entry registered in between; the second sweep must expire it.",
+    "C05": "Runs panic / panicrandom: the failing write panics instead of returning an error; the case runs in a child process, which either dies (nothing acknowledged) or survives and is judged by the same oracle.",
+    "C07": "Run lifetime: a node that has held 70 000 / 300 000 topic names (most cleared again) must still retain, replay and clear a publish on a new name, on the writer and on a mirror; checkpoints around powers of 2 and 10.",
+    "C08": "Run volume: 70 000 / 300 000 changes of each kind made on three origins, delivered in order, reversed and shuffled (batches, duplicates) to three replicas that must all list what the reference table lists.",
+    "C09": "Run fingerprints: among 200 000 / 1 500 000 real broadcasts, pairs of different messages that agree under one of 12 32-bit fingerprints (CRC-32 x3, FNV, Adler, truncated MD5/SHA-1/SHA-256, ...) are found by birthday search and delivered to a fresh receiver adjacent, reversed, with duplicates and 300 messages apart; the receiver must list what the reference table of the decoded messages lists.",
+    "C10": "Run sizes: every snapshot size from 1 to 1100 (thorough 4200) sessions, twice as many subscriptions, half as many retained messages (with removals), merged by a fresh node and by a node that lives on snapshots alone.",
+    "C12": "Run simultaneous: 2-24 connections presenting one identifier at the same moment on a node knowing 0 / 2000 / 20000 sessions: all are established; after each has pinged exactly one is served, the one the identifier resolves to.",
+    "C15": "Run longlogs: logs growing past 10 000 (thorough 100 000) entries with the consumer killed before, at and after the boundary while a backlog is ahead of it, then restarted.",
+    "C16": "File entries whose password column is empty or a truncated digest (disabled accounts): they match no password.",
+    "C17": "Mount-point names may be hierarchical (customers/acme, t/1/x), no name being a level-prefix of another.",
+    "C19": "Steps snap / back: a dump taken earlier is loaded later into the store as it is by then; the store answers as it did when the dump was taken (in the exhaustive alphabet and in the random histories).",
+}
